@@ -193,7 +193,9 @@ func leafValues(k string) []any {
 	case "number":
 		return []any{stdjson.Number(""), stdjson.Number("0"), stdjson.Number("-1.5e3"), stdjson.Number("1x"), stdjson.Number("01"), stdjson.Number("1e"), stdjson.Number("12345678901234567890")}
 	case "raw":
-		return []any{stdjson.RawMessage(nil), stdjson.RawMessage(`{}`), stdjson.RawMessage(" [1, 2,\n \"<x>\"] "), stdjson.RawMessage(`{"a":<}`), stdjson.RawMessage(`1 2`), stdjson.RawMessage(`"é "`), stdjson.RawMessage(``)}
+		return []any{stdjson.RawMessage(nil), stdjson.RawMessage(`{}`), stdjson.RawMessage(" [1, 2,\n \"<x>\"] "), stdjson.RawMessage(`{"a":<}`), stdjson.RawMessage(`1 2`), stdjson.RawMessage(`"é "`), stdjson.RawMessage(``),
+			// strings ending in an escaped backslash / holding escaped quotes, then strings with blanks inside, blanks between tokens
+			stdjson.RawMessage(rawTricky1), stdjson.RawMessage(rawTricky2)}
 	case "time":
 		return []any{time.Time{}, time.Date(2021, 3, 25, 21, 36, 12, 500000000, time.UTC), time.Date(1999, 12, 31, 23, 59, 59, 0, time.FixedZone("x", 5400)),
 			time.Date(10000, 1, 1, 0, 0, 0, 0, time.UTC), time.Date(-1, 1, 1, 0, 0, 0, 0, time.UTC), time.Date(2020, 1, 1, 0, 0, 0, 0, time.FixedZone("s", 3601))}
@@ -210,12 +212,16 @@ func leafValues(k string) []any {
 	case "TM_ptr":
 		return []any{TMPtr{}, TMPtr{"y\"z"}}
 	case "MU_both":
-		return []any{MUBoth{}, MUBoth{`{"k": [1, 2]}`}, MUBoth{` 1`}, MUBoth{`1 x`}, MUBoth{`"<>"`}}
+		return []any{MUBoth{}, MUBoth{`{"k": [1, 2]}`}, MUBoth{` 1`}, MUBoth{`1 x`}, MUBoth{`"<>"`},
+			MUBoth{"{\"dir\": \"C:\\\\tmp\\\\\", \"msg\": \"hello big  world\"}"}}
 	case "TMK":
 		return []any{TMK{}, TMK{"key"}}
 	}
 	panic("leafValues " + k)
 }
+
+const rawTricky1 = `{"dir": "C:\\tmp\\", "msg": "hello big  world" ,	"q" : [ "a\\" , " b \" c " ] }`
+const rawTricky2 = `[ "\\" , " " , "<\u2028 >" ]`
 
 // valuesOf returns a bounded list of values of shape s: zero / nil forms first, then built from
 // element values; r picks when the full product would be too large.
